@@ -11,6 +11,9 @@
 #include <covfie/core/backend/transformer/hilbert.hpp>
 #include <covfie/core/algebra/affine.hpp>
 #include <covfie/core/backend/transformer/affine.hpp>
+#include <covfie/core/backend/transformer/backup.hpp>
+#include <covfie/core/backend/transformer/clamp.hpp>
+#include <covfie/core/backend/transformer/shuffle.hpp>
 #include <covfie/core/backend/transformer/linear.hpp>
 #include <covfie/core/backend/transformer/morton.hpp>
 #include <covfie/core/backend/transformer/nearest_neighbour.hpp>
@@ -261,6 +264,27 @@ int main(int argc, char ** argv) {
             auto mka = [&](rng & r) { covfie::array::array<float, 3> c; c[0] = (float)r.below(5) + 0.25f * (float)r.below(3) - 0.25f + 0.25f; c[1] = (float)r.below(4) + 0.25f * (float)r.below(2); c[2] = (float)r.below(6) + 0.125f * (float)r.below(2);
                                       c[0] = std::min(c[0], 4.5f); c[1] = std::min(c[1], 3.25f); c[2] = std::min(c[2], 5.0f); return c; };
             stress("affine-linear-strided3", fa, mka, T, seed);
+        }
+        {   // the coordinate-mapping layers between the lookup and the storage order (clamp, out-of-range default, permutation):
+            // a lookup through them is a pure function of the coordinate, so a view shared by all threads must behave as
+            // per-thread views do (a memo of "the last coordinate" in a const view would be shared state)
+            using RS2 = cb::strided<In<2>, A1>;
+            auto f2 = filled<2, RS2>({9, 7});
+            using CL = cb::clamp<RS2>;
+            covfie::field<CL> fc(covfie::make_parameter_pack(typename CL::configuration_t{{0, 0}, {8, 6}}, typename RS2::owning_data_t(f2.backend())));
+            auto mkc = [&](rng & r) { covfie::array::array<std::size_t, 2> c; c[0] = r.below(20); c[1] = r.below(15); return c; };
+            stress("clamp-strided2", fc, mkc, T, seed);
+            using BK = cb::backup<RS2>;
+            covfie::field<BK> fb(covfie::make_parameter_pack(typename BK::configuration_t{{1, 1}, {7, 5}, {-3.f}}, typename RS2::owning_data_t(f2.backend())));
+            stress("backup-strided2", fb, mkc, T, seed);
+            using SH = cb::shuffle<RS2, std::index_sequence<1, 0>>;
+            covfie::field<SH> fs(covfie::make_parameter_pack(typename SH::configuration_t{}, typename RS2::owning_data_t(f2.backend())));
+            auto mks = [&](rng & r) { covfie::array::array<std::size_t, 2> c; c[0] = r.below(7); c[1] = r.below(9); return c; };
+            stress("shuffle-strided2", fs, mks, T, seed);
+            using LC = cb::linear<CL>;
+            covfie::field<LC> flc(covfie::make_parameter_pack(typename LC::configuration_t{}, typename CL::configuration_t{{0, 0}, {8, 6}}, typename RS2::owning_data_t(f2.backend())));
+            auto mklc = [&](rng & r) { covfie::array::array<float, 2> c; c[0] = (float)r.below(14) + 0.25f * (float)r.below(4); c[1] = (float)r.below(11) + 0.5f * (float)r.below(2); return c; };
+            stress("linear-clamp-strided2", flc, mklc, T, seed);
         }
         stress_wide<4, double, 3>("strided4-double3", {4, 3, 5, 3}, T, seed);
         stress_wide<4, float, 4>("strided4-float4", {3, 4, 3, 4}, T, seed);
